@@ -56,6 +56,22 @@ def random_history(rng, maxlen, names, ops_kinds):
                 tmpl = "O,%%d,%s,0,%s,-" % (rng.choice("djy"), bf_csv(bf))
             elif k == "W":
                 tmpl = "W,%%d,%s,-" % bf_csv(bf)
+            elif k == "Wn":
+                # a walk whose callback makes another From-Root call (on this or another tree): same visits as a plain walk
+                others = [x for x in roots if pt.handles[x][0] != ri]
+                if not others:
+                    continue
+                other = rng.choice(others)      # ANOTHER tree: re-entrant use of the same tree is outside the property
+                checks.append((len(ops), pt.items(ri), "W,%%d,%s,-" % bf_csv(bf)))
+                ops.append("Wn,%d,%d,%s" % (h, other, bf_csv(bf)))
+                continue
+            elif k == "Ob":
+                # an output whose writer fails part-way: interference only
+                if rng.random() < 0.5:
+                    ops.append("Ob,%d,%d" % (h, rng.randint(0, 30)))
+                else:
+                    ops.append("Ob,%d,%d,%s" % (h, rng.randint(0, 30), hx(spell(pt.items(ri), plain_spelling(pt.items(ri))))))
+                continue
             elif k == "I" and rng.random() < 0.4:
                 # obtain the iterator now, consume it after further Adds / calls with other options
                 key = sum(1 for o in ops if o.startswith("Ic"))
@@ -121,12 +137,18 @@ def run(ck, rng):
         hs.append(materialise(h))
     names = [b"a", b"b", b"c", b"dir", b"x y", "é".encode(), b"- z"]
     for _ in range(600 if ck.tier == "quick" else 20000):
-        hs.append(random_history(rng, 60 if rng.random() < 0.2 else 14, names, ["O", "O", "W", "I", "o"]))
+        hs.append(random_history(rng, 60 if rng.random() < 0.2 else 14, names, ["O", "O", "W", "I", "o", "Wn", "Ob"]))
     # histories in which mkdir / verify calls (which switch name validation on) and names that are no valid path
     # elements occur between the operations that are compared
     hostile = names + [b"x/y", b"..", b".", b"a/"]
     for _ in range(300 if ck.tier == "quick" else 8000):
-        hs.append(random_history(rng, 24, hostile, ["O", "W", "I", "o", "M", "V", "m", "v", "M", "V"]))
+        ops_h, checks_h = random_history(rng, 24, hostile, ["O", "W", "I", "o", "M", "V", "m", "v", "M", "V", "Ob"])
+        if rng.random() < 0.4:
+            # colours switched on (as on a terminal) for the whole history: dry-run mkdir colours its report, and must not
+            # leave anything of that in the caller's trees
+            ops_h = ["K"] + ops_h
+            checks_h = [(oi + 1, items, tmpl) for oi, items, tmpl in checks_h]
+        hs.append((ops_h, checks_h))
     cases = ["hist " + ";".join(ops) for ops, _ in hs]
     impl, _ = run_impl(exe, cases)
     model = run_model(cases)
@@ -153,12 +175,12 @@ def run(ck, rng):
         later_adds = any(o.startswith("A") for o in ops[checks[0][0]:]) if checks else False
         ck.case(cases[hi][:400], bool(checks) and later_adds)
         ck.count("len<=5" if len(ops) <= 5 else "len<=14" if len(ops) <= 14 else "len>14")
-        if hi not in bad_hist and impl[hi] != model[hi]:
+        if hi not in bad_hist and impl[hi] != model[hi] and ops[0] != "K":     # the model has colours off
             broken = broken or (cases[hi][:1500], impl[hi][:400], model[hi][:400])
     # concurrent: groups of 2-4 histories in goroutines, repeated
     groups = []
     # the jail (working directory) is process-wide: histories with mkdir / verify calls are not run concurrently
-    idx = [i for i in range(len(hs)) if hs[i][1] and not any(o[0] in "MVmvF" for o in hs[i][0])]
+    idx = [i for i in range(len(hs)) if hs[i][1] and not any(o[0] in "MVmvFK" for o in hs[i][0])]
     rng.shuffle(idx)
     ng = 150 if ck.tier == "quick" else 4000
     for g in range(ng):
